@@ -5,6 +5,7 @@
   (pkg/op/token.go CreateTokenResponse / refstore).  Tied to the code by the C04 / C07 streams.
 -/
 import OidcModel.Generated.TokenEndpoint
+import OidcModel.Generated.TokenIssue
 
 namespace Flow
 open Go
@@ -67,7 +68,9 @@ def refreshExchange (now : Int) (rt : Router) (p : Provider) (req : RefreshToken
     if !p.refreshSupported then .error "ErrUnsupportedGrantType" else
     match Gen.ValidateRefreshTokenRequest now req p with
     | .error e => .error e
-    | .ok (r, c) => Hand.issueForRefresh now r c p true "" req.RefreshToken
+    | .ok (r, c) =>
+      -- the handler's call of CreateTokenResponse: which current refresh token it hands on is a regenerated fact
+      Hand.issueForRefresh now r c p true "" (if Gen.refreshHandlerCurrent == "presented" then req.RefreshToken else "")
   | .legacy =>
     let cc : ClientCredentials := { ClientID := req.ClientID, ClientSecret := req.ClientSecret, ClientAssertion := req.ClientAssertion, ClientAssertionType := req.ClientAssertionType }
     match withClient now p Const.GrantTypeRefreshToken cc hasAssertion with
@@ -76,28 +79,69 @@ def refreshExchange (now : Int) (rt : Router) (p : Provider) (req : RefreshToken
       if req.RefreshToken == "" then .error "ErrInvalidRequest"
       else Gen.LegacyRefreshToken now ⟨p⟩ { Data := req, Client := client }
 
-/-- does the issued response contain a refresh token (`needsRefreshToken`): offline_access for the
-    code flow with the refresh grant registered, always for a refresh -/
+/-- does the issued response contain a refresh token: the REGENERATED `needsRefreshToken` (a type switch over
+    the kind of token request; Generated/TokenIssue.lean) on what `createTokens` is handed -/
 def wantsRefresh (i : IssueFor) : Bool :=
   match i with
-  | .code a c _ => a.scopes.contains "offline_access" && c.grants.contains Const.GrantTypeRefreshToken
-  | .refresh _ _ _ => true
+  | .code a c _ => Gen.needsRefreshToken 0 (.auth a) c
+  | .refresh r c _ => Gen.needsRefreshToken 0 (.refresh r) c
+
+/-! Regenerated facts about `CreateTokenResponse` (Generated/TokenIssue.lean: its calls in source order). -/
+
+/-- on the authorization-code path the authorization request (and with it the code) is deleted - for every request that is
+    an `AuthRequest`, under no further condition -/
+def deletesAuthRequest : Bool :=
+  Gen.createTokenResponseCalls.any fun c => c.callee == "DeleteAuthRequest" && c.inAuthRequestBranch && c.guard == "ok"
+/-- a failing `DeleteAuthRequest` ends the request with an error (no token response) -/
+def deleteFailureFatal : Bool :=
+  Gen.createTokenResponseCalls.any fun c => c.callee == "DeleteAuthRequest" && c.errReturned
+/-- the tokens are created in the storage before the authorization request is deleted -/
+def tokensBeforeDelete : Bool :=
+  match Gen.createTokenResponseCalls.findIdx? (·.callee == "CreateAccessToken"), Gen.createTokenResponseCalls.findIdx? (·.callee == "DeleteAuthRequest") with
+  | some i, some j => decide (i < j)
+  | _, _ => false
+
+/-- storage effect of `createTokens`: with a refresh token wanted the storage mints a new one (code grant) or
+    rotates the presented one (refresh grant: the old record lives on under a new string); otherwise only an
+    access token is created, which this model does not track -/
+def mintTokens (s : St) (i : IssueFor) : St :=
+  if wantsRefresh i then
+    match i with
+    | .code a _ _ =>
+      let rt : RefreshReq := { token := "rt" ++ toString s.nextRT, clientID := a.clientID, subject := a.subject, scopes := a.scopes,
+                               audience := [a.clientID], authTime := a.authTime }
+      { (s.setStore { s.store with refresh := s.store.refresh ++ [rt] }) with nextRT := s.nextRT + 1 }
+    | .refresh r _ cur =>
+      let rt : RefreshReq := { r with token := "rt" ++ toString s.nextRT }
+      { (s.setStore { s.store with refresh := s.store.refresh.filter (·.token != cur) ++ [rt] }) with nextRT := s.nextRT + 1 }
+  else s
+
+/-- `Storage.DeleteAuthRequest`: the request and every code that maps to it are gone -/
+def deleteAuthRequest (s : St) (id : String) : St :=
+  s.setStore { s.store with authReqs := s.store.authReqs.filter (·.id != id), codes := s.store.codes.filter (·.2 != id) }
 
 /-- storage effects of `CreateTokenResponse` on success -/
 def applyIssue (s : St) (i : IssueFor) : St :=
+  let s := mintTokens s i
   match i with
-  | .code a _ _ =>
-    let st := s.store
-    let st := { st with authReqs := st.authReqs.filter (·.id != a.id), codes := st.codes.filter (·.2 != a.id) }
-    if wantsRefresh i then
-      let rt : RefreshReq := { token := "rt" ++ toString s.nextRT, clientID := a.clientID, subject := a.subject, scopes := a.scopes,
-                               audience := [a.clientID], authTime := a.authTime }
-      { (s.setStore { st with refresh := st.refresh ++ [rt] }) with nextRT := s.nextRT + 1 }
-    else s.setStore st
-  | .refresh r _ cur =>
-    let st := s.store
-    let rt : RefreshReq := { r with token := "rt" ++ toString s.nextRT }
-    { (s.setStore { st with refresh := st.refresh.filter (·.token != cur) ++ [rt] }) with nextRT := s.nextRT + 1 }
+  | .code a _ _ => if deletesAuthRequest then deleteAuthRequest s a.id else s
+  | .refresh _ _ _ => s
+
+/-- the refresh token in the response: the one the storage just minted -/
+def newRefresh (s : St) (i : IssueFor) : Option String :=
+  if wantsRefresh i then some ("rt" ++ toString s.nextRT) else none
+
+/-- OAuth error code of a sentinel name (what the error response carries) -/
+def oauthCode (e : String) : String :=
+  match e with
+  | "ErrInvalidRequest" => "invalid_request"
+  | "ErrInvalidGrant" => "invalid_grant"
+  | "ErrInvalidClient" => "invalid_client"
+  | "ErrUnauthorizedClient" => "unauthorized_client"
+  | "ErrUnsupportedGrantType" => "unsupported_grant_type"
+  | "ErrInvalidScope" => "invalid_scope"
+  | "ErrInteractionRequired" => "interaction_required"
+  | _ => "server_error"
 
 /-- operations of a history -/
 inductive Op
@@ -133,27 +177,23 @@ def step (now : Int) (s : St) : Op → St × Out
   | .exchange rt req ha =>
     match codeExchange now rt s.p req ha with
     | .error e => (s, .error e)
-    | .ok i =>
-      let nr := if wantsRefresh i then some ("rt" ++ toString s.nextRT) else none
-      (applyIssue s i, .issued i nr)
+    | .ok i => (applyIssue s i, .issued i (newRefresh s i))
   | .exchangeDeleteFails rt req ha =>
     match codeExchange now rt s.p req ha with
     | .error e => (s, .error e)
     | .ok i =>
-      -- tokens were already created in the storage when the deletion fails: the request is answered with
-      -- an error, the authorization request and its code survive (a later exchange may still succeed)
-      if wantsRefresh i then
-        match i with
-        | .code a _ _ =>
-          let rt : RefreshReq := { token := "rt" ++ toString s.nextRT, clientID := a.clientID, subject := a.subject, scopes := a.scopes,
-                                   audience := [a.clientID], authTime := a.authTime }
-          ({ (s.setStore { s.store with refresh := s.store.refresh ++ [rt] }) with nextRT := s.nextRT + 1 }, .error "ErrServerError")
-        | _ => (s, .error "ErrServerError")
-      else (s, .error "ErrServerError")
+      if !deletesAuthRequest then (applyIssue s i, .issued i (newRefresh s i))      -- nothing to fail
+      else if deleteFailureFatal then
+        -- the request is answered with an error; the authorization request and its code survive (a later exchange
+        -- may still succeed); tokens that were created in the storage before the deletion was attempted stay there
+        (if tokensBeforeDelete then mintTokens s i else s, .error "ErrServerError")
+      else
+        -- the failure is swallowed: tokens are handed out although request and code survive
+        (mintTokens s i, .issued i (newRefresh s i))
   | .refresh rt req ha =>
     match refreshExchange now rt s.p req ha with
     | .error e => (s, .error e)
-    | .ok i => (applyIssue s i, .issued i (some ("rt" ++ toString s.nextRT)))
+    | .ok i => (applyIssue s i, .issued i (newRefresh s i))
 
 def run (now : Int) (s : St) : List Op → St × List Out
   | [] => (s, [])
